@@ -73,6 +73,46 @@ def inst_unify(policy, hi):
                     cost=5 if policy == "auto" else 2, wall_s=900)
 
 
+def inst_policy_change(built, computed):
+    """a block-count-sensitive consumer (one element per block, as a reduction tree or a boolean mask is planned per block) over
+    x + y with differently chunked operands, *built* under one unify-chunks policy and *materialized* under another: same
+    values -- the lowering must not unify the operands a second time under the policy then in force"""
+    def body(E):
+        w = catalog.W(E)
+        _cfg(w).d.update({"array.unify-chunks-policy": built, "array.unify-chunks-limit": None})
+        # (a concrete nested pair of layouts, on which the policies disagree: coarse keeps (6, 6), refine cuts to (2,) * 6; the
+        # data are symbolic)
+        x = source(w, E, "x", (2,), chunks=[(6, 6)])
+        y = source(w, E, "y", (6,), chunks=[(2,) * 6])
+        add = p_elemwise(w, operator.add, x, y)
+        prog = catalog.p_map_first(w, E, add)  # (one element per block of the layout advertised now)
+        adv = tuple(map(tuple, add.node.chunks))
+        E.observe("built-chunks", [list(c) for c in adv])
+        _cfg(w).d.update({"array.unify-chunks-policy": computed})
+        for opt in (True, False):
+            _check(E, w, prog, f"opt{int(opt)}", opt)
+
+    def api(values):
+        import dask
+        import dask_array as da
+
+        cx, cy = (6, 6), (2,) * 6
+        X, Y = np.arange(sum(cx), dtype="f8"), np.ones(sum(cx))
+        with dask.config.set({"array.unify-chunks-policy": built}):
+            z = da.from_array(X, chunks=(cx,)) + da.from_array(Y, chunks=(cy,))
+            f = z.map_blocks(lambda b: b[:1], chunks=((1,) * len(z.chunks[0]),), dtype=float)
+            bnd = np.cumsum((0,) + z.chunks[0])[:-1]
+        with dask.config.set({"array.unify-chunks-policy": computed}):
+            try:
+                got = f.compute(scheduler="sync")
+            except ValueError as ex:
+                return dict(ok=False, detail=f"built under {built}, computed under {computed}: ValueError {str(ex)[:90]}")
+        return dict(ok=bool(np.array_equal(got, (X + Y)[bnd])), detail=f"built under {built}, computed under {computed}: {got.tolist()}")
+
+    return Instance(f"policy_change[built={built},computed={computed}]", body, dict(built=built, computed=computed),
+                    unit="Blockwise.chunks / Elemwise._lower + unify_chunks_expr + Reduction lowering", api_replay=api, cost=4, wall_s=900)
+
+
 def inst_rechunk(blocks_old, blocks_new, degree, hi):
     def body(E):
         w = catalog.W(E)
@@ -143,6 +183,8 @@ def instances(tier):
     for pol in ("coarse", "refine"):
         out.append(inst_unify(pol, None))
     out.append(inst_unify("auto", 5))
+    out.append(inst_policy_change("coarse", "refine"))
+    out.append(inst_policy_change("refine", "coarse"))
     out.append(inst_rechunk((2,), (3,), 100, 4))
     out.append(inst_rechunk((3,), (2,), 2, 4))
     if not q:
